@@ -770,6 +770,11 @@ func loadContracts(repo, verif string) (*ContractSet, map[string]string, error) 
 		if _, err := os.Stat(repoFile); err == nil {
 			file = repoFile
 			used[p] = "repo"
+			if a, e1 := os.ReadFile(repoFile); e1 == nil {
+				if b, e2 := os.ReadFile(mirror); e2 == nil && string(a) != string(b) {
+					return nil, nil, fmt.Errorf("%s differs from its mirror %s: run /verif/tools/sync_contracts.sh", repoFile, mirror)
+				}
+			}
 		} else if _, err := os.Stat(mirror); err == nil {
 			file = mirror
 			used[p] = "mirror"
